@@ -297,11 +297,11 @@ class Writer(_Base):
     def shapes(self, tier):
         out = [dict(records=1, samples=1), dict(records=1, samples=2), dict(records=2, samples=1)]
         if tier == "thorough":
-            out += [dict(records=3, samples=1), dict(records=1, samples=3)]
+            out.append(dict(records=2, samples=2, lite=True))  # all four calls at once; positive likelihoods, no stale keys
         return out
 
     def bounds(self, tier):
-        return "records x samples in %s; per call: position genotyped / not accessible (likelihoods None) / not in the table, an arbitrary given genotype out of ./., 0/0, 0/1, 1/1 (not necessarily the arg-max), three symbolic likelihoods k/1024, optional stale FORMAT key; a non-genotyped record may be tri-allelic" % [(s["records"], s["samples"]) for s in self.shapes(tier)]
+        return "records x samples in %s (2x2 only with positive likelihoods and without stale keys); per call: position genotyped / not accessible (likelihoods None) / not in the table, an arbitrary given genotype out of ./., 0/0, 0/1, 1/1 (not necessarily the arg-max), three symbolic likelihoods k/1024, optional stale FORMAT key; a non-genotyped record may be tri-allelic" % [(s["records"], s["samples"]) for s in self.shapes(tier)]
 
     def harness(self, e, shape, impl):
         R, S = shape["records"], shape["samples"]
@@ -318,7 +318,7 @@ class Writer(_Base):
             for s in samples:
                 c = FakeCall()
                 c["GT"] = (0, 1)
-                stale[(r, s)] = e.bit("stale%d%s" % (r, s))
+                stale[(r, s)] = 0 if shape.get("lite") else e.bit("stale%d%s" % (r, s))
                 if stale[(r, s)]:
                     c["DP"] = 7
                     c["PS"] = 11
@@ -335,6 +335,9 @@ class Writer(_Base):
                 row = 1 + in_table.index(positions[r])
                 if e.bit("accessible%d%s" % (r, s)):
                     l = [_lik(e, "k%d%s.%d" % (r, s, i)) for i in range(3)]
+                    if shape.get("lite"):
+                        for x in l:
+                            e.assume(x > 0)
                     g = e.choice("gt%d%s" % (r, s), [(), (0, 0), (0, 1), (1, 1)])
                     gls[row] = impl.core.PhredGenotypeLikelihoods(list(l))
                     gts[row] = impl.core.Genotype(list(g))
